@@ -77,8 +77,16 @@ func c15(c *wk.Ctx) {
 	r.Rule = "KeyToSlot vs Cluster-spec reference on (a) every string over {'{','}','a','b'} up to a length bound, (b) random binary keys with braces spliced in; " +
 		"three CRC16 copies vs bitwise CRC16/XMODEM; ChoseSlotInRange/findKeyInRange results re-hashed by the reference. distinct = brace-layout class x outcome class"
 	conf.Options = conf.Configuration{}
+	nchecks := 0
 	check := func(k []byte, kind string) {
 		want := refcrc.Slot(k)
+		// the slot of a key is a fact about the key: it may not depend on how the run is configured. Every seventh key
+		// is hashed while the options that touch key names (hash-tag replacement, a fixed target db, filters) are set
+		nchecks++
+		if nchecks%7 == 0 {
+			conf.Options = conf.Configuration{ReplaceHashTag: true, TargetDB: 3, FilterSlot: []string{"1", "16383"}, FilterKeyBlacklist: []string{"{"}, KeyExists: "rewrite"}
+			defer func() { conf.Options = conf.Configuration{} }()
+		}
 		got := int(utils.KeyToSlot(string(k)))
 		cls := braceClass(k)
 		r.Case(kind + "|" + cls)
